@@ -87,6 +87,7 @@ class World:
         self.rand_plan = collections.deque(rand_plan or [])
         self.rand_counter = 0
         self.on_connect = None          # optional callback(sock) deciding the outcome
+        self.probe = None               # optional callable sampled when a socket is created (e.g. "is the node stopping?")
         WORLD = self
 
     # ------------------------------------------------------------------ threads
@@ -476,6 +477,7 @@ class FakeSocket:
         w.socks.append(self)
         self._fd = None
         self._fd = w.alloc_fd()
+        self.created_while = w.probe() if w.probe is not None else None
 
     def __repr__(self):
         return f"<FakeSocket #{self.sid} fd={self._fd}{' closed' if self.closed else ''}>"
